@@ -246,7 +246,9 @@ def add_complex(script, rng):
             c = rng.choice([["cnum", 0.0, 1.0], ["*", ["cnum", 0.0, 2.0], ["var", "<dt>"]], ["cnum", 1.0, -1.0]])
             a = ["var", "cav"]
             e = rng.choice([["*", c, a], ["*", a, c], ["+", c, a], ["+", a, c], ["/", c, ["+", a, ["num", 2]]],
-                            ["/", a, c], ["-", c, a], ["*", ["num", 2], c, a]])
+                            ["/", a, c], ["-", c, a], ["*", ["num", 2], c, a],
+                            ["**", a, ["cnum", 0.0, 0.5]], ["**", a, c], ["**", ["+", a, ["num", 1]], ["cnum", 1.0, 1.0]],
+                            ["**", ["cnum", 0.0, 1.0], a]])
             new = [["call", ["cav"], "<builtin>array", [["num", 2]], {}, 0],
                    ["assign", "cav", ["var", "i"], ["+", ["*", ["num", 0.5], ["var", "i"]], ["num", 1]],
                     [["i", ["num", 0], ["num", 2]]], 0],
